@@ -3,7 +3,7 @@
 //! block freed under a different layout (mstsc-rs frees a Vec<u8> allocation as Vec<u32>) is handled.
 
 use std::alloc::{GlobalAlloc, Layout, System};
-use std::sync::atomic::{AtomicPtr, AtomicU64, Ordering::Relaxed};
+use std::sync::atomic::{AtomicPtr, AtomicU64, AtomicU8, Ordering::Relaxed};
 
 pub struct RedZone;
 
@@ -11,6 +11,9 @@ const ZONE: usize = 64;
 const CANARY: u8 = 0xCA;
 const MAGIC: u64 = 0x5EED_C0DE_FACE_B00C;
 
+/// when non-zero, every fresh (not zeroed) block is filled with this byte: what a program reads from memory it never
+/// wrote is then chosen by the harness instead of being whatever the heap held
+pub static POISON: AtomicU8 = AtomicU8::new(0);
 /// number of corrupted canary zones detected so far
 pub static CORRUPTIONS: AtomicU64 = AtomicU64::new(0);
 /// journal slot (mmap) where a corruption is recorded before the process exits
@@ -59,6 +62,10 @@ unsafe impl GlobalAlloc for RedZone {
             return base;
         }
         fill(base, l.size(), align.max(ZONE));
+        let p = POISON.load(Relaxed);
+        if p != 0 {
+            std::ptr::write_bytes(base.add(ZONE), p, l.size());
+        }
         base.add(ZONE)
     }
     unsafe fn dealloc(&self, p: *mut u8, _l: Layout) {
